@@ -248,6 +248,9 @@ func (s *sim) observeBuilt(n int, blk *types.Block) *blockRef {
 			s.escrow.Add(s.escrow, it.value)
 			r.Logf("    escrow += %v (%s %s)", it.value, it.kind, s.act.name(it.val))
 		}
+		if ok && it != nil && it.cbChange {
+			s.cbChanged[it.val] = n
+		}
 		if ok && it != nil && it.kind == "val-create" {
 			if a := s.act.valByAddr(it.val); a != nil {
 				a.created = true
